@@ -14,6 +14,6 @@ META['text'] += ' A declarative family makes a READ of several variables fail pa
 
 def run(ctx):
     ctx.cov['rule'] = ('one case = one program run on the real interpreter; evaluations = statement boundaries validated by TLC; distinct = distinct program texts')
-    interp_check.run_model_families(ctx, ['data'])
+    interp_check.run_model_families(ctx, ['data', 'strread'])
     interp_check.run_family(ctx, {'ctl', 'data', 'err'}, ctx.pick(220, 5000), size=12,
                             focus={'data': 45, 'for': 8, 'while': 4, 'gosub': 4, 'on': 2, 'err': 4})
